@@ -9,6 +9,7 @@ import (
 
 	defn "github.com/named-data/ndnd/fw/defn"
 	"github.com/named-data/ndnd/fw/face"
+	"verif/mc/report"
 )
 
 // replayFile re-executes the single case recorded in a replay file (./check C10 --replay <file>)
@@ -96,7 +97,7 @@ func replayFile(path string) int {
 				return 2
 			}
 			f := frames[fi]
-			if pn := safely("handleIncomingFrame", func() { face.VerifC10Recv(rcv, f) }); pn != "" {
+			if pn := safely("handleIncomingFrame", func() { recvReused(ctx, rcv, f) }); pn != "" {
 				addVio("C10.order", r.Source+" frames: "+pn, cfg{fragOn: true}, r.Mtu, 0, pn, func() map[string]any { return nil })
 			}
 		}
@@ -120,6 +121,9 @@ func replayFile(path string) int {
 		// the family is small and deterministic: re-run all of it (the violating sets are printed)
 		putCtx(ctx)
 		enumSeqDistance(true)
+	case "B-concurrent-maximum-size":
+		putCtx(ctx)
+		enumMaxConcurrent(os.Getenv("VERIF_TIER") == "thorough", &report.Samples{N: 1})
 	default:
 		fmt.Printf("CHECK-ERROR: replay file has no enumeration field\n")
 		return 2
